@@ -55,7 +55,7 @@ mut("C02-noevict", ["C02", "C07"], T, "if t.weightedSize > t.capacity {\n\t\tt.E
 mut("C05-notify-nocheck", ["C05"], S, "\t\tif deleted {\n\t\t\tk, v := entry.key, entry.value\n\t\t\tif s.removalListener != nil {", "\t\tif deleted || true {\n\t\t\tk, v := entry.key, entry.value\n\t\t\tif s.removalListener != nil {")
 mut("C05-reason", ["C05"], S, "case EVICTE:\n\t\ts.removeEntry(entry, EVICTED)", "case EVICTE:\n\t\ts.removeEntry(entry, EXPIRED)")
 mut("C05-expired-as-evicted", ["C05", "C04"], S, "\t\t\tif expire <= s.timerwheel.clock.NowNano() {\n\t\t\t\ts.removeEntry(entry, EXPIRED)\n\t\t\t\treturn", "\t\t\tif expire <= s.timerwheel.clock.NowNano() {\n\t\t\t\ts.removeEntry(entry, EVICTED)\n\t\t\t\treturn")
-mut("C20-early-wake", ["C20"], S, "\tfor _, item := range s.writeBuffer {\n\t\tif item.code == WAIT {\n\t\t\twait++\n\t\t\tcontinue\n\t\t}", "\tfor _, item := range s.writeBuffer {\n\t\tif item.code == WAIT {\n\t\t\twait++\n\t\t\tselect {\n\t\t\tcase s.waitChan <- true:\n\t\t\t\twait--\n\t\t\tdefault:\n\t\t\t}\n\t\t\tcontinue\n\t\t}", "answers a waiter before the batch is applied")
+mut("C20-early-wake", ["C20"], S, "\tvar wait int\n\tfor _, item := range s.writeBuffer {", "\tvar wait int\n\tfor _, item := range s.writeBuffer {\n\t\tif item.code == WAIT {\n\t\t\tselect {\n\t\t\tcase s.waitChan <- true:\n\t\t\t\twait--\n\t\t\tdefault:\n\t\t\t}\n\t\t}\n\t}\n\tfor _, item := range s.writeBuffer {", "answers waiters before the batch is applied")
 mut("C20-marker-as-event", ["C20"], S, "\t\t\twait++\n\t\t\tcontinue\n", "\t\t\twait++\n")
 mut("C10-cancel-first", ["C10"], S, "func (s *Store[K, V]) Close() {\n\tfor _, shard := range s.shards {", "func (s *Store[K, V]) Close() {\n\ts.cancel()\n\tfor _, shard := range s.shards {")
 mut("C10-noclosedflag", ["C10"], S, "\t\tshard.closed = true\n\t\tshard.hashmap = map[K]*Entry[K, V]{}", "\t\tshard.hashmap = map[K]*Entry[K, V]{}")
